@@ -13,7 +13,7 @@ from vlib.lab import Lab
 PROPERTY_ID = "C11"
 LEVEL = "exploration"
 RULE = (
-    "Generated: 1-4 (thorough 1-5) inner traced sources (cold / synchronous / hot / hot backed by a real Subject, whose late subscribers get its terminal at once; 0-4 (thorough 0-6) distinct ints each so every element names its "
+    "Generated: 1-4 (thorough 1-5) inner traced sources (cold / synchronous / hot / hot backed by a real Subject, whose late subscribers get its terminal at once / subsched = time-based inner that runs on the scheduler handed down by subscribe(scheduler=...), as reactivex.timer/interval do; 0-4 (thorough 0-6) distinct ints each so every element names its "
     "inner, gaps 0-3, terminal completion / error / none = never completes) and an outer timeline (cold / synchronous / "
     "hot, 0-5 (thorough 0-7) elements selecting inners, possibly the same inner several times, terminal completion / error / none); "
     "forms merge_all, merge(max_concurrent=1..4), flat_map (mapper and constant-observable forms), flat_map_indexed, "
@@ -33,6 +33,7 @@ RULE = (
     "probe (and the first) is judged by the same oracle with its own subscribe tick. Non-trivial: >= 2 inner subscriptions with overlapping lifetimes, or an inner was queued."
 )
 ASSUMPTIONS = [
+    "a subsched inner that is not handed the scheduler the top-level subscription was made with would run on the library default (real time); in virtual time none of its notifications is ever seen - emulated by the traced source staying silent (no real timers are started)",
     "a Subject-backed inner (kind subject) delivers its terminal at once to a subscriber that arrives after, or during the dispatch of, that terminal (documented Subject behaviour)",
     "inner sources are conforming; a subscription counts as active until its own terminal was delivered or it was unsubscribed",
     "subscriptions opened after the output already terminated (a synchronous outer still unwinding) are not judged here (C02/C03)",
@@ -137,6 +138,7 @@ def _run(case):
     o, outer = build(case, lab, inners)
     p = lab.probe()
     sch = "lab" if case.get("sched", "lab") == "lab" else None
+    lab.expect_sched = sch == "lab"
     lab.at(t0, lambda: p.subscribe(o, scheduler=sch))
     p2 = None
     s2 = [None]
@@ -181,6 +183,10 @@ def _run(case):
                 first_bad = (bad, op)
         if got_ok is None:
             (clause, msg), op = first_bad
+            lost = [x.name for x in inners if x.lost_sched]
+            if lost:
+                clause = "inner-not-run-on-subscription-scheduler:" + clause
+                msg = f"inner(s) {lost} were subscribed without the scheduler the subscription was made with; " + msg
             return FAIL(f"{clause}|{who}{suffix}", f"{msg}; expected trace {exact_trace(op)} got {q.trace()} (subscribed at {tq}) case={case}")
         if chosen is None:
             chosen = got_ok
@@ -188,6 +194,11 @@ def _run(case):
 
     # evidence classes
     cls = [form, "policy:" + pol, "clock:" + case.get("clock", "test")]
+    tsrc = [i for i, x in enumerate(op.inners) if x.kind == "subsched" and x.handles]
+    if tsrc:
+        cls.append("subsched-inner")
+        if any(op.arrivals[j]["src"] in tsrc and op.arrivals[j]["sub"] is not None and op.arrivals[j].get("dequeued") for j in op.started):
+            cls.append("subsched-inner:started-from-queue")
     ssrc = [x for x in op.inners if x.kind == "subject" and x.handles]
     if ssrc:
         cls.append("subject-inner")
@@ -248,7 +259,7 @@ def _run(case):
 # ---------------------------------------------------------------------------------------
 
 
-_KINDS = ("cold", "cold", "sync", "hot", "subject")
+_KINDS = ("cold", "cold", "sync", "hot", "subject", "subsched")
 
 
 def _clock(draw, c):
